@@ -496,7 +496,7 @@ func (c *bufComp) Run(h *hlib.History) ([]hlib.Mon, bool) {
 			case 1:
 				w.WriteHeader(int(e.a))
 			case 2:
-				_, _ = w.Write(genBody(e.a, e.b))
+				hlib.WriteVia(w, genBody(e.a, e.b), int(e.a+e.b)+len(st.invs))
 			case 3:
 				if e.a < 0 {
 					d, _ := io.ReadAll(req.Body)
